@@ -27,3 +27,15 @@ def call_sut(fn, *args, **kwargs):
 
 
 call_sut.last_message = ""
+
+
+def hyp_target(value: float, label: str = ""):
+    """hypothesis.target(), usable from replay / corpus evaluation as well (no-op there)."""
+    from hypothesis import target
+    from hypothesis.control import currently_in_test_context
+
+    if currently_in_test_context():
+        try:
+            target(float(value), label=label)
+        except Exception:  # noqa: BLE001 - targeting is an optimisation hint only (e.g. called twice per case)
+            pass
